@@ -35,17 +35,27 @@ package main
 //@ extern func os.Exit(code int)
 //@   noreturn
 //@   requires @nonzero_on_failure ghost.failed ==> code != 0
-// The config loader fails for a missing or malformed file; it cannot set unexported fields (SyscallGroup.arch stays nil).
+// The documented configuration path (spec/75_config.smt2): the YAML loader of go-ucfg turns the WHOLE file into a
+// configuration (fileCfg), Unpack assigns the policy that configuration denotes (policyOf). The loader fails for a
+// missing or malformed file; it cannot set unexported fields (SyscallGroup.arch stays nil). These contracts are where
+// the assumption "go-ucfg's YAML path is faithful, 64-bit operands included" lives; another loader (JSON, a size-limited
+// reader, ...) has no such contract and establishes nothing.
 //@ extern func yaml.NewConfigWithFile(name string, opts ...ucfg.Option) (*ucfg.Config, error)
-//@   ensures result1 == nil ==> result0 != nil
+//@   ensures result1 == nil ==> result0 != nil && cfgOf(*result0) == fileCfg(name)
+//@ extern func os.ReadFile(name string) ([]byte, error)
+//@   ensures result1 == nil ==> bytesCfg(result0) == fileCfg(name)
+//@ extern func yaml.NewConfig(in []byte, opts ...ucfg.Option) (*ucfg.Config, error)
+//@   ensures result1 == nil ==> result0 != nil && cfgOf(*result0) == bytesCfg(in)
 //@ extern func (c *ucfg.Config) Unpack(to interface{}, options ...ucfg.Option) error
 //@   modifies to
 //@   ensures result == nil ==> forall(i, 0, len(to.Seccomp.Syscalls), to.Seccomp.Syscalls[i].arch == nil)
+//@   ensures result == nil ==> to.Seccomp == policyOf(cfgOf(*c))
 //@ extern func flag.StringVar(p *string, name string, value string, usage string)
 //@ extern func flag.BoolVar(p *bool, name string, value bool, usage string)
 
-//@ func parsePolicy() (*seccomp.Policy, error)   properties C15
+//@ func parsePolicy() (*seccomp.Policy, error)   properties C14 C15
 //@   ensures @result {C15} result1 == nil ==> result0 != nil && forall(i, 0, len(result0.Syscalls), result0.Syscalls[i].arch == nil)
+//@   ensures @documented_path {C14 C15} result1 == nil ==> *result0 == policyOf(fileCfg(policyFile))
 //@   ensures @error {C15} result1 != nil ==> result0 == nil
 
 //@ func main()   properties C15
@@ -55,4 +65,5 @@ package main
 //@   ghost ghost.failed = ghost.failed || err != nil at after assign policy#1
 //@   ghost ghost.failed = ghost.failed || err != nil at after assign err#1
 //@   assert @exec_only_after_load {C15} !ghost.failed && !ghost.ran && ghost.att == allThreads && filter.Policy == *policy && filter.Flag & 1 != 0 at before call exec.Cmd.Run#1
+//@   assert @policy_of_the_file {C15} filter.Policy == policyOf(fileCfg(policyFile)) at before call seccomp.LoadFilter#1
 //@   ensures @ran_under_policy {C15} ghost.ran ==> ghost.att == allThreads
